@@ -31,7 +31,8 @@ IntFew == { I(0), I(-129), I(256) }
 
 BitVals ==
   { <<>>, <<1>>, <<0>>, <<1, 0, 1>>, <<1, 1, 1, 1, 1, 1, 1>>, <<1, 0, 1, 0, 1, 0, 1, 0>>,
-    <<0, 0, 0, 0, 0, 0, 0, 0>>, <<1, 0, 0, 0, 0, 0, 0, 0, 1>>,
+    <<0, 0, 0, 0, 0, 0, 0, 0>>, <<1, 0, 0, 0, 0, 0, 0, 0, 1>>, <<0, 0, 0, 0, 0, 0, 0, 0, 1>>,
+    <<0, 0, 0, 0, 0, 0, 0, 0, 0, 0, 0, 0, 0, 0, 0, 0, 1, 1>>,
     <<1, 1, 1, 1, 0, 0, 0, 0, 1, 0, 1, 0, 0, 1, 0, 1>>,
     <<1, 1, 1, 1, 0, 0, 0, 0, 1, 0, 1, 0, 0, 1, 0, 1, 1, 0, 0>> }
 BitFew == { <<>>, <<1, 0, 1>>, <<1, 0, 0, 0, 0, 0, 0, 0, 1>> }
@@ -160,6 +161,13 @@ Deep ==
     [k |-> "set", tags |-> <<CtxE(128)>>, comps |-> << Comp("p", Sc("bool", <<CtxE(200)>>), "req"), Comp("q", Sc("null", <<Ctx(100)>>), "req"),
                                               Comp("r", Sc("int", <<[m |-> "I", c |-> 1, n |-> B(5)]>>), "req") >>],
     [k |-> "seqof", tags |-> <<>>, of |-> Sc("bits", <<CtxE(31)>>)],
+    \* different explicit high tags of one class (self-describing)
+    [k |-> "seq", tags |-> <<>>, comps |-> << Comp("p", Sc("int", <<CtxE(40)>>), "req"), Comp("q", Sc("octs", <<CtxE(41)>>), "req"),
+                                              Comp("r", Sc("bool", <<CtxE(1000)>>), "opt") >>],
+    \* OPTIONAL and DEFAULT components in a row, followed by a mandatory one
+    [k |-> "seq", tags |-> <<>>, comps |-> << Comp("id", Sc("int", <<>>), "req"), Comp("name", Sc("utf8", <<>>), "opt"),
+                                              CompD("flag", Sc("bool", <<>>), [b |-> FALSE]),
+                                              CompD("retries", Sc("int", <<Ctx(0)>>), I(1)), Comp("data", Sc("octs", <<>>), "req") >>],
     [k |-> "setof", tags |-> <<>>, of |-> Sc("int", <<>>)],
     [k |-> "setof", tags |-> <<>>, of |-> InnerOf] }
 
